@@ -756,6 +756,10 @@ func pathVariety(r *evid.Run, scratch string) {
 	names := []string{
 		"ü/ö b.proto", "a b/c d.txt", "tab\tname.proto", long + "/x.proto", long + "/" + long + "/" + long + "/deep.proto",
 		"日本/語.proto", "dot.dir/.hidden", "UPPER/lower", "upper/LOWER", "a..b/c...d", "-dash/--x", "percent%41/x",
+		// names that look like somebody's temporary or hidden files are ordinary objects
+		".tmp", ".tmpl", "t/.tmpfile12345", ".tmpd/x", "t/x.tmp", "t/x~",
+		// siblings of the directory "s" whose next byte sorts below, at and above '/' (prefix walks are path-wise)
+		"s/x", "s.txt", "s-b/x", "s b/y", "s0/z", "s/x.d/e",
 	}
 	cont := []string{"", "1", bigContent(70 * 1024)}
 	type set map[string]string
@@ -766,7 +770,8 @@ func pathVariety(r *evid.Run, scratch string) {
 			sets = append(sets, set{n: cont[(i+j)%3], names[j]: cont[(i+j+1)%3]})
 		}
 	}
-	routes := []string{"direct-mem", "direct-os", "tar", "zip", "mem->os", "os->mem", "tar-from-os", "zip-from-os", "map(mem,p)", "map(os,p)"}
+	routes := []string{"direct-mem", "direct-os", "tar", "zip", "mem->os", "os->mem", "tar-from-os", "zip-from-os", "map(mem,p)", "map(os,p)",
+		"copypath(mem->os)", "copypath(os->mem)", "copypath(mem->mem)", "copypath(os->os)", "copypath(same mem)", "copypath(same os)"}
 	type item struct {
 		s     set
 		route string
@@ -861,6 +866,74 @@ func pathVariety(r *evid.Run, scratch string) {
 				return
 			}
 			result = out
+		case "copypath(mem->os)", "copypath(os->mem)", "copypath(mem->mem)", "copypath(os->os)", "copypath(same mem)", "copypath(same os)":
+			// CopyPath of every object to a DIFFERENT name: the destination gets exactly the new names, the
+			// source keeps exactly the old ones
+			mk := func(kind string) storage.ReadWriteBucket {
+				if kind == "os" {
+					return newOS()
+				}
+				return storagemem.NewReadWriteBucket()
+			}
+			var src, dst storage.ReadWriteBucket
+			switch it.route {
+			case "copypath(mem->os)":
+				src, dst = mk("mem"), mk("os")
+			case "copypath(os->mem)":
+				src, dst = mk("os"), mk("mem")
+			case "copypath(mem->mem)":
+				src, dst = mk("mem"), mk("mem")
+			case "copypath(os->os)":
+				src, dst = mk("os"), mk("os")
+			case "copypath(same mem)":
+				src = mk("mem")
+				dst = src
+			default:
+				src = mk("os")
+				dst = src
+			}
+			if !put(src) {
+				return
+			}
+			want := map[string]string{}
+			for i, k := range keys {
+				to := "copied/" + k
+				if i%2 == 1 {
+					to = k + ".copy"
+				}
+				var opts []storage.CopyOption
+				if i%2 == 0 {
+					opts = append(opts, storage.CopyWithAtomic())
+				}
+				if err := storage.CopyPath(ctx, src, k, dst, to, opts...); err != nil {
+					fail("copypath-error", fmt.Sprintf("CopyPath(%q -> %q): %v", k, to, err))
+					return
+				}
+				want[to] = it.s[k]
+				if src == dst {
+					want[k] = it.s[k]
+				}
+			}
+			gotDst, err := wrapSnapshot(ctx, dst)
+			if err != nil {
+				fail("walk-error", err.Error())
+				return
+			}
+			if d := diffMaps(gotDst, want); d != "" {
+				fail("copypath-destination", d)
+				return
+			}
+			gotSrc, err := wrapSnapshot(ctx, src)
+			if err != nil {
+				fail("walk-error", err.Error())
+				return
+			}
+			if src != dst {
+				if d := diffMaps(gotSrc, map[string]string(it.s)); d != "" {
+					fail("copypath-source-changed", d)
+				}
+			}
+			return
 		case "mem->os":
 			src := storagemem.NewReadWriteBucket()
 			if !put(src) {
@@ -905,7 +978,55 @@ func pathVariety(r *evid.Run, scratch string) {
 		if len(got) != len(keys) {
 			fail("extra", fmt.Sprintf("bucket lists %d objects, %d were put", len(got), len(keys)))
 		}
+		// walks of every directory prefix of every object (and of the object itself): exactly the objects that
+		// are path-wise below the prefix, whatever other names sort between them
+		prefixSet := map[string]bool{}
+		for _, k := range keys {
+			parts := strings.Split(k, "/")
+			for n := 1; n <= len(parts); n++ {
+				prefixSet[strings.Join(parts[:n], "/")] = true
+			}
+		}
+		for prefix := range prefixSet {
+			var wantUnder, gotUnder []string
+			for _, k := range keys {
+				if k == prefix || strings.HasPrefix(k, prefix+"/") {
+					wantUnder = append(wantUnder, k)
+				}
+			}
+			if err := result.Walk(ctx, prefix, func(info storage.ObjectInfo) error {
+				gotUnder = append(gotUnder, info.Path())
+				return nil
+			}); err != nil {
+				fail("prefix-walk-error", fmt.Sprintf("Walk(%q): %v", prefix, err))
+				return
+			}
+			sort.Strings(wantUnder)
+			sort.Strings(gotUnder)
+			if strings.Join(wantUnder, "\x00") != strings.Join(gotUnder, "\x00") {
+				fail("prefix-walk", fmt.Sprintf("Walk(%q) visited %q, the objects below that prefix are %q", prefix, gotUnder, wantUnder))
+				return
+			}
+		}
 	})
+}
+
+func diffMaps(got, want map[string]string) string {
+	for k, v := range want {
+		g, ok := got[k]
+		if !ok {
+			return fmt.Sprintf("object %q is missing", k)
+		}
+		if g != v {
+			return fmt.Sprintf("object %q has %d bytes, expected %d", k, len(g), len(v))
+		}
+	}
+	for k := range got {
+		if _, ok := want[k]; !ok {
+			return fmt.Sprintf("unexpected object %q", k)
+		}
+	}
+	return ""
 }
 
 func wrapSnapshot(ctx context.Context, b storage.ReadBucket) (map[string]string, error) {
